@@ -97,7 +97,73 @@ def stop_only_posts():
     return 'bool', cbool(_only_posts('stop', 'Stop'))
 
 
-FACTS = [maxloops, outer_rounds, inner_loop_is_range_maxloops, cleanup_swap_under_lock,
+S = 'frappy/states.py'
+
+
+def _status_const(name):
+    c = find_class(parse('frappy/datatypes.py'), 'StatusType')
+    for node in c.body:
+        if isinstance(node, ast.Assign) and any(isinstance(t, ast.Name) and t.id == name for t in node.targets):
+            v = const(node.value)
+            if not isinstance(v, int):
+                raise Shape('status code is not an int')
+            return 'Z', f'({v})%Z'
+    raise Shape(f'StatusType.{name} not found')
+
+
+def status_idle():
+    return _status_const('IDLE')
+
+
+def status_busy():
+    return _status_const('BUSY')
+
+
+def status_error():
+    return _status_const('ERROR')
+
+
+def start_resets_idle_status():
+    """HasStates.start_machine hands idle_status=... to sm.start, so that the final status of an earlier run
+    (stopped / error / final_status) is not inherited by the new run"""
+    f = find_func(find_class(parse(S), 'HasStates'), 'start_machine')
+    text = src(f).replace(' ', '')
+    pos_default = text.find("kwds.setdefault('idle_status',(IDLE,''))")
+    pos_start = text.find('sm.start(statefunc,')
+    if pos_start < 0 or '**kwds)' not in text[pos_start:]:
+        raise Shape('sm.start(statefunc, ..., **kwds) call not found in start_machine')
+    return 'bool', cbool(0 <= pos_default < pos_start)
+
+
+def hasstates_shapes():
+    """the statements of states.py the HasStates model transliterates"""
+    c = find_class(parse(S), 'HasStates')
+    st = src(find_func(c, 'state_transition')).replace(' ', '')
+    sp = src(find_func(c, 'stop_machine')).replace(' ', '')
+    sm_ = src(find_func(c, 'start_machine')).replace(' ', '')
+    fs = src(find_func(c, 'final_status')).replace(' ', '')
+    oe = src(find_func(c, 'on_error')).replace(' ', '')
+    cm = src(find_func(c, 'cycle_machine')).replace(' ', '')
+    ok = ('status=self.get_status(newstate)' in st and 'ifisinstance(sm.next_task,Stop):' in st
+          and "status=(status[0],f'stopping({status[1]})')" in st
+          and 'ifsm.status[1]==status[1]:' in st and "status=(sm.status[0],f'restarting({status[1]})')" in st
+          and 'status=self.get_status(sm.next_task.newstate,BUSY)' in st and 'ifstatus:\nsm.status=status' in st.replace('\n', '\n').replace('\n\n', '\n')
+          or False)
+    ok2 = ('ifsm.is_active:' in sp and 'sm.idle_status=stopped_status' in sp and 'sm.stop()' in sp
+           and "sm.status=(self.get_status(sm.statefunc,sm.status[0])[0],'stopping')" in sp)
+    ok3 = ('sm.status=self.get_status(statefunc,BUSY)' in sm_ and "sm.status=(sm.status[0],'restarting')" in sm_)
+    ok4 = 'sm.idle_status=(code,text)' in fs and 'returnFinish' in fs
+    ok5 = 'self.final_status(ERROR,repr(sm.cleanup_reason))' in oe
+    ok6 = 'sm.cycle()' in cm and cm.rstrip().endswith('self.read_status()')
+    st2 = src(find_func(c, 'state_transition'))
+    okst = all(x in st2.replace(' ', '') for x in ('status=self.get_status(newstate)', 'ifsm.next_task:', 'ifisinstance(sm.next_task,Stop):',
+                                                    'elifnewstate:', 'ifsm.status[1]==status[1]:', 'status=sm.status',
+                                                    'status=self.get_status(sm.next_task.newstate,BUSY)', 'ifstatus:', 'sm.status=status',
+                                                    'ifself.all_status_changes:', 'self.read_status()'))
+    return 'bool', cbool(okst and ok2 and ok3 and ok4 and ok5 and ok6)
+
+
+FACTS = [status_idle, status_busy, status_error, start_resets_idle_status, hasstates_shapes, maxloops, outer_rounds, inner_loop_is_range_maxloops, cleanup_swap_under_lock,
          task_pickup_under_lock, start_only_posts, stop_only_posts]
 
 FINGERPRINTS = {
@@ -106,4 +172,12 @@ FINGERPRINTS = {
     'StateMachine._new_state': lambda: find_func(_sm(), '_new_state'),
     'StateMachine.start': lambda: find_func(_sm(), 'start'),
     'StateMachine.stop': lambda: find_func(_sm(), 'stop'),
+    'HasStates.state_transition': lambda: find_func(find_class(parse(S), 'HasStates'), 'state_transition'),
+    'HasStates.get_status': lambda: find_func(find_class(parse(S), 'HasStates'), 'get_status'),
+    'HasStates.start_machine': lambda: find_func(find_class(parse(S), 'HasStates'), 'start_machine'),
+    'HasStates.stop_machine': lambda: find_func(find_class(parse(S), 'HasStates'), 'stop_machine'),
+    'HasStates.final_status': lambda: find_func(find_class(parse(S), 'HasStates'), 'final_status'),
+    'HasStates.on_cleanup': lambda: find_func(find_class(parse(S), 'HasStates'), 'on_cleanup'),
+    'HasStates.on_error': lambda: find_func(find_class(parse(S), 'HasStates'), 'on_error'),
+    'HasStates.cycle_machine': lambda: find_func(find_class(parse(S), 'HasStates'), 'cycle_machine'),
 }
